@@ -34,15 +34,25 @@ let fls xs = String.concat " " (List.map hx xs)
 let run () =
   match next () with
   | "weights" ->
+      (* weights J G K eta_1..eta_K <group>* : the service as an object.  The tables are what the stub
+         detector of every (dataset, group) cell stores; record arrays are created per cell by
+         to_rec; the stub evaluates the record array it is given (yields of the cell that BUILT it)
+         times the eta values of the slice of the source parameters it is handed *)
       let j = nint () in let g = nint () in
+      let k = nint () in let eta = Array.of_list (times k nfl) in
       let groups = times g (group j) in
-      (* the service as an object: record arrays are created per (dataset, group) by
-         to_rec, the stub detector yield of cell (j', g') evaluates the record array it is
-         given by looking up the yields of the cell that BUILT the array *)
       let ws = List.map fst groups in
       let tbl = Array.of_list (List.map (fun (_, yc) -> Array.of_list yc) groups) in
       let to_rec zj zg zg' = ((int_of_z zj, int_of_z zg), int_of_z zg') in
-      let yield_call _ _ ((rj, rg), _) = tbl.(rg).(rj) in
+      let yield_call _ _ ((rj, rg), _) (lo, hi) =
+        let t = tbl.(rg).(rj) in
+        let lo = int_of_z lo and hi = int_of_z hi in
+        let e = List.init (max 0 (hi - lo)) (fun i -> eta.(lo + i)) in
+        let lt = List.length t and le = List.length e in
+        if lt = le then List.map2 ( *. ) t e
+        else if lt = 1 then List.map (fun x -> List.hd t *. x) e
+        else if le = 1 then List.map (fun x -> x *. List.hd e) t
+        else t in
       (match weights_eval_svc numf (nat_of_int j) (ws, to_rec) [] yield_call with
        | Ok (a, f) ->
            print_endline ("Ok " ^ String.concat " ; " (List.map fls a) ^ " | " ^ fls f)
